@@ -102,6 +102,8 @@ def parse_script(script_text, start_line_number=1):
             if match_function_begin.group('lastArgArray') is not None:
                 function_def['function']['lastArgArray'] = True
             statements.append(function_def)
+            function_def_line = line
+            function_def_line_number = start_line_number + ix_line
             continue
 
         # Function definition end?
@@ -402,6 +404,10 @@ def parse_script(script_text, start_line_number=1):
         def_key = next(iter(label_def))
         def_ = label_def[def_key]
         raise BareScriptParserError(f"Missing end{def_key} statement", def_['line'], 1, def_['lineNumber'])
+
+    # Unterminated function definition?
+    if function_def is not None:
+        raise BareScriptParserError('Missing endfunction statement', function_def_line, 1, function_def_line_number)
 
     return script
 
